@@ -21,6 +21,7 @@ O = "{%s}" % NS["office"]
 E = 0
 S = 9
 Z = 8
+K = 10   # text without a value type: no value, yet not empty (Grid.tla)
 
 
 # ---------------------------------------------------------------- building
@@ -30,6 +31,8 @@ def cell_xml(c: int, rep: int = 1) -> str:
         return f"<table:table-cell{r}/>"
     if c == S:
         return f'<table:table-cell table:style-name="ce1"{r}/>'
+    if c == K:
+        return f"<table:table-cell{r}><text:p>k</text:p></table:table-cell>"
     if c == Z:
         # a real value that is falsy in Python, written without any text:p child (as other producers may do)
         return f'<table:table-cell office:value-type="float" office:value="0"{r}/>'
@@ -132,6 +135,10 @@ def make_cell(c: int, rep: int = 1):
         cell = Cell(style="ce1")
     elif c == Z:
         cell = Cell(0)
+    elif c == K:
+        from odfdo import Element
+
+        cell = Element.from_tag(_ns_cell(cell_xml(K)))
     else:
         cell = Cell(c)
     if rep > 1:
@@ -169,6 +176,10 @@ def _rep(el, attr: str, raw: list) -> int:
     return max(n, 1)
 
 
+def _ns_cell(xml: str) -> str:
+    return xml.replace("<table:table-cell", '<table:table-cell xmlns:table="%s" xmlns:text="%s"' % (NS["table"], NS["text"]), 1)
+
+
 def cell_code(el, valmap: dict | None = None) -> int:
     """Abstract code of one XML cell: by office:value (small ints map to
     themselves), S for a styled empty cell, 0 for an empty one."""
@@ -179,6 +190,9 @@ def cell_code(el, valmap: dict | None = None) -> int:
         if el.get(T + "number-columns-spanned") or el.get(T + "number-rows-spanned"):
             return _code(("span", el.get(T + "number-columns-spanned"), el.get(T + "number-rows-spanned")), valmap)
         return S if el.get(T + "style-name") is not None else E
+    if vt is None and len(el) == 1 and (el[0].text or "") == "k" and len(el[0]) == 0 and el.get(T + "style-name") is None \
+            and el.tag == T + "table-cell" and not el.get(T + "number-columns-spanned") and not el.get(T + "number-rows-spanned"):
+        return K
     key: tuple
     if vt == "float":
         v = el.get(O + "value")
@@ -460,7 +474,7 @@ def apply_op(table, o: dict, rng: random.Random | None = None, enc: str = "max")
     if op == "delete_column":
         return table.delete_column(o["x"])
     if op == "set_column_cells":
-        if alt and S not in o["r"]:
+        if alt and S not in o["r"] and K not in o["r"]:
             return table.set_column_values(o["x"], [pyval(c) for c in o["r"]])
         return table.set_column_cells(o["x"], _sharing(rng)[1](o["r"]))
     if op == "clear":
@@ -482,7 +496,7 @@ def apply_row_op(row, o: dict, rng: random.Random | None = None):
     op = o["op"]
     alt = rng is not None and rng.random() < 0.35
     if op == "row_set_cell":
-        if alt and o["n"] == 1 and o["c"] != S:
+        if alt and o["n"] == 1 and o["c"] not in (S, K):
             return row.set_value(o["x"], pyval(o["c"]))
         return row.set_cell(o["x"], _arg(row, rng, "cell", [o["c"], o["n"]], lambda: make_cell(o["c"], o["n"])))
     if op == "row_clear":
